@@ -155,7 +155,9 @@ def constAfter (prev : Char) (c : PyConst) (text : Str) : Option Str :=
 
 /-- concatenated leading constant text, and the segments after it -/
 def litPrefix : List Seg → Str × List Seg
-  | .lit t :: r => (t ++ (litPrefix r).1, (litPrefix r).2)
+  | .lit t :: r =>
+    match litPrefix r with
+    | (a, b) => (t ++ a, b)
   | r => ([], r)
 
 def Seg.isUnrecognised : Seg → Bool
